@@ -120,11 +120,11 @@ pub fn explore(opts: &Opts) -> Explored {
     let var = opts.seed % 3;
     let spaces: Vec<(&str, Vec<OpK>, usize)> = match opts.tier {
         Tier::Quick => vec![
-            ("uscale+umul", vec![OpK::UScale(2.0), OpK::UMul], 4),
+            ("uscale+umul+uident", vec![OpK::UScale(2.0), OpK::UMul, OpK::UIdent], 4),
             ("uscale+umul+uadd", vec![OpK::UScale(2.0), OpK::UMul, OpK::UAdd], 3),
         ],
         Tier::Thorough => vec![
-            ("uscale+umul", vec![OpK::UScale(2.0), OpK::UMul], 5),
+            ("uscale+umul+uident", vec![OpK::UScale(2.0), OpK::UMul, OpK::UIdent], 5),
             ("uscale+umul+uadd", vec![OpK::UScale(2.0), OpK::UMul, OpK::UAdd], 4),
         ],
     };
@@ -320,7 +320,7 @@ pub fn explore(opts: &Opts) -> Explored {
             LeafSpec { dims: vec![2], vals: vec![5.0, -1.0], tracked: false },
         ];
         let mut cfgs = Vec::new();
-        let mut m = base_cfg("user-ops/N3F2P2", lv.clone(), vec![OpK::UMul, OpK::UScale(3.0)], 5);
+        let mut m = base_cfg("user-ops/N3F2P2", lv.clone(), vec![OpK::UMul, OpK::UScale(3.0), OpK::UIdent], 5);
         m.bounds = match opts.tier {
             Tier::Quick => Bounds { builds: 2, flags: 2, passes: 2, depth: 6, ..Bounds::default() },
             Tier::Thorough => Bounds { builds: 3, flags: 2, passes: 2, depth: 6, ..Bounds::default() },
